@@ -324,6 +324,24 @@ func printerCase(in map[string]any) map[string]any {
 	}
 
 	if has("rt") {
+		// top-level tokens that no declaration of the AST covers (the parser skipped them)
+		uncovered := 0
+		cur := file.Stream().Cursor()
+		for tok := cur.Next(); !tok.IsZero(); tok = cur.Next() {
+			sp := tok.Span()
+			covered := false
+			for decl := range seq.Values(file.Decls()) {
+				ds := decl.Span()
+				if !ds.IsZero() && ds.Start <= sp.Start && sp.End <= ds.End {
+					covered = true
+					break
+				}
+			}
+			if !covered {
+				uncovered++
+			}
+		}
+		out["uncovered"] = uncovered
 		whole, err := printer.PrintFile(printer.Options{}, file)
 		if err != nil {
 			out["rt_err"] = err.Error()
